@@ -242,6 +242,7 @@ impl Model for PolyModel {
         let mut n = s.clone();
         n.depth += 1;
         n.last = Some(a);
+        let act_copy = a;
         match a {
             Act::ExteriorMut(k) => {
                 n.poly.exterior_mut(|l| apply_real(k, l));
@@ -336,6 +337,18 @@ impl Model for PolyModel {
                     close_ref(r);
                 }
             }
+        }
+        // after a closure that returned an error the property fixes closedness only; what the rings hold (edits kept and re-closed, or rolled back) is
+        // the implementation's choice: the reference continues from whatever the polygon holds now
+        let errored = match &act_copy {
+            Act::TryExteriorMut(_, ok) => !*ok,
+            Act::TryInteriorsMut(_, _, ok) => !*ok,
+            Act::TryInteriorsBothThenErr(_) | Act::TryMapInPlace(_, _) => true,
+            _ => false,
+        };
+        if errored {
+            n.rext = n.poly.exterior().0.iter().map(|c| (c.x, c.y)).collect();
+            n.rints = n.poly.interiors().iter().map(|r| r.0.iter().map(|c| (c.x, c.y)).collect()).collect();
         }
         Some(n)
     }
